@@ -207,7 +207,32 @@ def unbound_witness(cfg: CFG, var: str, use: CFGNode, correlated: bool = True, l
     """A path entry -> use along which `var` is never bound; with `correlated`, paths on which two tests with
     identical normalised text (whose variables are not re-bound in between) take different outcomes are
     excluded as infeasible. Returns None if no such path exists."""
-    start = (cfg.entry, frozenset())
+
+    def block(node: CFGNode, succ: CFGNode, label, binds: bool) -> bool:
+        return binds and var in node_defs(node) and var not in node_dels(node)
+
+    return feasible_path(cfg, cfg.entry, use, block_edge=block, correlated=correlated, limit=limit)
+
+
+def feasible_path(
+    cfg: CFG,
+    src: CFGNode,
+    dst: CFGNode,
+    avoid: Optional[Set[CFGNode]] = None,
+    block_edge=None,
+    correlated: bool = True,
+    limit: int = 200000,
+    skip_exc: bool = False,
+) -> Optional[List[CFGNode]]:
+    """A path src -> dst that avoids `avoid` and every edge for which block_edge(node, succ, label, binds)
+    holds, and that is not refuted by the light path-sensitivity below:
+      * two tests with the same atoms (see implied_atoms) whose variables are not re-bound in between must
+        take consistent outcomes;
+      * `x = None` / `x = <literal, f-string, container display>` fix the atom `x is None`;
+      * a for loop's zero-iteration exit implies its iterable is empty, an iteration implies it is not.
+    Returns the node list, or None when no such path exists."""
+    avoid = avoid or set()
+    start = (src, frozenset())
     prev: Dict[Tuple[CFGNode, FrozenSet], Optional[Tuple[CFGNode, FrozenSet]]] = {start: None}
     todo = [start]
     test_nodes: Set[CFGNode] = {n for n in cfg.nodes if n.kind == "test" and n.ast is not None and isinstance(n.owner, (ast.If, ast.While))}
@@ -217,8 +242,8 @@ def unbound_witness(cfg: CFG, var: str, use: CFGNode, correlated: bool = True, l
         node, assum = cur
         steps += 1
         if steps > limit:
-            return [cfg.entry, use]  # give up: report conservatively as possibly unbound
-        if node is use:
+            return [src, dst]  # give up: report conservatively as feasible
+        if node is dst and cur is not start:
             path = []
             c: Optional[Tuple[CFGNode, FrozenSet]] = cur
             while c is not None:
@@ -227,19 +252,38 @@ def unbound_witness(cfg: CFG, var: str, use: CFGNode, correlated: bool = True, l
             return list(reversed(path))
         defs = node_defs(node)
         for s in cfg.g.successors(node):
+            if s in avoid and s is not dst:
+                continue
             lab = cfg.g[node][s].get("label")
             labs = lab if isinstance(lab, tuple) else (lab,)
             for l in labs:
+                if skip_exc and l == "exc":
+                    continue
                 binds = not (l == "exc" or (node.kind == "for" and l is False))
-                if binds and var in defs and var not in node_dels(node):
+                if block_edge is not None and block_edge(node, s, l, binds):
                     continue
                 a = dict(assum)
                 if binds and defs:
                     for k in [k for k in a if test_text_vars(k) & defs]:
                         del a[k]
+                if correlated and node.kind == "iter" and node.owner is not None:
+                    a.pop("@it%d" % id(node.owner), None)
+                atoms: List[Tuple[str, bool]] = []
                 if correlated and node in test_nodes and l in (True, False):
+                    atoms = implied_atoms(node.ast, l)
+                elif correlated and node.kind == "for" and node.owner is not None and l in (True, False):
+                    key = "@it%d" % id(node.owner)
+                    E = emptiness_chains(node.owner.iter)
+                    if l is True:
+                        a[key] = True
+                        atoms = [(f"len({e}) == 0", False) for e in E if e != "?"]
+                    elif key not in a and len(E) == 1 and "?" not in E:
+                        atoms = [(f"len({next(iter(E))}) == 0", True)]  # zero iterations
+                elif correlated and binds and isinstance(node.ast, (ast.Assign, ast.AnnAssign)):
+                    atoms = assignment_atoms(node.ast)
+                if atoms:
                     clash = False
-                    for txt, val in implied_atoms(node.ast, l):
+                    for txt, val in atoms:
                         if txt in a and a[txt] != val:
                             clash = True
                             break
@@ -251,6 +295,24 @@ def unbound_witness(cfg: CFG, var: str, use: CFGNode, correlated: bool = True, l
                     prev[st] = cur
                     todo.append(st)
     return None
+
+
+def assignment_atoms(st: ast.AST) -> List[Tuple[str, bool]]:
+    tg = st.targets if isinstance(st, ast.Assign) else [st.target]
+    v = st.value
+    if v is None or len(tg) != 1 or not isinstance(tg[0], ast.Name):
+        return []
+    x = tg[0].id
+    if isinstance(v, ast.Constant):
+        if v.value is None:
+            return [(f"{x} is None", True), (x, False)]
+        out = [(f"{x} is None", False)]
+        if isinstance(v.value, bool):
+            out.append((x, v.value))
+        return out
+    if isinstance(v, (ast.JoinedStr, ast.List, ast.Dict, ast.Set, ast.Tuple, ast.ListComp, ast.DictComp, ast.SetComp, ast.Lambda)):
+        return [(f"{x} is None", False)]
+    return []
 
 
 def implied_atoms(test: ast.AST, outcome: bool) -> List[Tuple[str, bool]]:
@@ -267,12 +329,60 @@ def implied_atoms(test: ast.AST, outcome: bool) -> List[Tuple[str, bool]]:
     if isinstance(test, ast.UnaryOp) and isinstance(test.op, ast.Not):
         return implied_atoms(test.operand, not outcome)
     if isinstance(test, ast.Compare) and len(test.ops) == 1:
+        l, op, r = test.left, test.ops[0], test.comparators[0]
+        if _is_len(r) and isinstance(l, ast.Constant):  # 0 < len(x)  ->  len(x) > 0
+            mirror = {ast.Lt: ast.Gt, ast.Gt: ast.Lt, ast.LtE: ast.GtE, ast.GtE: ast.LtE, ast.Eq: ast.Eq, ast.NotEq: ast.NotEq}
+            if type(op) in mirror:
+                l, op, r = r, mirror[type(op)](), l
+        if _is_len(l) and isinstance(r, ast.Constant) and isinstance(r.value, int):
+            atom = f"len({ast.unparse(l.args[0])}) == 0"
+            k = r.value
+            if (isinstance(op, ast.Eq) and k == 0) or (isinstance(op, ast.Lt) and k == 1) or (isinstance(op, ast.LtE) and k == 0):
+                return [(atom, outcome)]
+            if (isinstance(op, (ast.NotEq, ast.Gt)) and k == 0) or (isinstance(op, ast.GtE) and k == 1):
+                return [(atom, not outcome)]
         flip = {ast.IsNot: ast.Is, ast.NotEq: ast.Eq, ast.NotIn: ast.In}
         for neg, pos in flip.items():
             if isinstance(test.ops[0], neg):
                 t2 = ast.Compare(left=test.left, ops=[pos()], comparators=test.comparators)
                 return [(ast.unparse(t2), not outcome)]
+    if isinstance(test, (ast.Name, ast.Attribute)):
+        # truthiness of a container: truthy => non-empty; falsy => nothing to iterate
+        return [(ast.unparse(test), outcome), (f"len({ast.unparse(test)}) == 0", not outcome)]
     return [(ast.unparse(test), outcome)]
+
+
+def _is_len(e: ast.AST) -> bool:
+    return isinstance(e, ast.Call) and isinstance(e.func, ast.Name) and e.func.id == "len" and len(e.args) == 1
+
+
+def emptiness_chains(it: ast.AST) -> Set[str]:
+    """Expressions E such that the loop `for _ in it` runs zero times iff (some) E is empty.
+    '?' marks an argument whose emptiness is not tied to a nameable container."""
+    if isinstance(it, (ast.Name, ast.Attribute)):
+        return {ast.unparse(it)}
+    if isinstance(it, ast.Call):
+        f = it.func
+        if isinstance(f, ast.Name):
+            if f.id == "zip":
+                out: Set[str] = set()
+                for a in it.args:
+                    out |= emptiness_chains(a)
+                return out or {"?"}
+            if f.id in ("enumerate", "list", "tuple", "sorted", "reversed", "iter", "set") and it.args:
+                return emptiness_chains(it.args[0])
+            if f.id == "range":
+                # range(len(E)) / range(k, len(E) + k)
+                if len(it.args) == 1 and _is_len(it.args[0]):
+                    return {ast.unparse(it.args[0].args[0])}
+                if len(it.args) == 2 and isinstance(it.args[0], ast.Constant) and isinstance(it.args[1], ast.BinOp) and isinstance(it.args[1].op, ast.Add):
+                    b = it.args[1]
+                    if _is_len(b.left) and isinstance(b.right, ast.Constant) and b.right.value == it.args[0].value:
+                        return {ast.unparse(b.left.args[0])}
+                return {"?"}
+        if isinstance(f, ast.Attribute) and f.attr in ("items", "values", "keys") and not it.args:
+            return emptiness_chains(f.value)
+    return {"?"}
 
 
 _TT_CACHE: Dict[str, Set[str]] = {}
